@@ -395,6 +395,27 @@ Proof.
     intros a. destruct a; cbn [getattr abs_d_e rms_g max_g rms_s max_s]; eexists; (split; [reflexivity|]);
       first [assumption | left; reflexivity].
 Qed.
+(* what an accepted result of conv_params holds *)
+Lemma conv_params_of_inv l k v : conv_params_of sqrtf l k = Ok v ->
+  construct v = Ok v /\
+  rms_g v = Some (match p_g l with Some g => Fin (rms sqrtf g) | None => PInf end) /\
+  max_g v = Some (match p_g l with Some g => Fin (maxabs g) | None => PInf end) /\
+  match k with
+  | Some k' => exists el ek, p_e l = Some el /\ p_e k' = Some ek /\
+                 abs_d_e v = Some (Fin (Qcabs (el - ek))) /\
+                 rms_s v = Some (Fin (rms sqrtf (lsub (p_x l) (p_x k')))) /\
+                 max_s v = Some (Fin (maxabs (lsub (p_x l) (p_x k'))))
+  | None => abs_d_e v = Some PInf /\ rms_s v = Some PInf /\ max_s v = Some PInf
+  end.
+Proof.
+  unfold conv_params_of. destruct k as [k'|].
+  - destruct (p_e l) as [el|]; [|discriminate]. destruct (p_e k') as [ek|]; [|discriminate].
+    intros H. pose proof H as H'. apply construct_inv in H. destruct H as [-> _].
+    split; [exact H'|]. cbn [rms_g max_g abs_d_e rms_s max_s]. split; [reflexivity|]. split; [reflexivity|].
+    exists el, ek. repeat split; reflexivity.
+  - intros H. pose proof H as H'. apply construct_inv in H. destruct H as [-> _].
+    split; [exact H'|]. cbn [rms_g max_g abs_d_e rms_s max_s]. repeat split; reflexivity.
+Qed.
 End ConvParamsLemmas.
 
 (* masking: components of the internal gradient at inactive indexes do not reach cart_proj_g *)
@@ -583,6 +604,47 @@ Proof.
     destruct (snd (body' h)); [exact Hb|exact (IH _ Hb)].
 Qed.
 
+(* the species: after every pass, and at the end, it holds the snapshot of the evaluated final entry *)
+Variable Sp : Type.
+Variable snap : entry -> Sp.
+Notation loop2' := (loop2 entry step evalg cb conv_params n_constraints n_satisfied single_atom tol maxiter Sp snap).
+Notation body2' := (loop_body (op_callback2 entry cb Sp) (op_step2 entry step Sp) (op_update2 entry evalg Sp snap)
+                              (op_log2 entry Sp) (exceeded_now2 entry maxiter Sp)).
+Definition synced (x : list entry * Sp) : Prop := exists c r, fst x = evalg c :: r /\ snd x = snap (evalg c).
+
+Lemma body2_facts x : fst x <> [] ->
+  fst (fst (body2' x)) = fst (body' (fst x)) /\ snd (body2' x) = snd (body' (fst x)) /\ synced (fst (body2' x)).
+Proof.
+  intros Hne. destruct x as [h s]. cbn [fst] in Hne.
+  set (hh := op_log entry (op_update entry evalg (op_step entry step (op_callback entry cb h)))).
+  set (sp := match op_update entry evalg (op_step entry step (op_callback entry cb h)) with
+             | c :: _ => snap c | [] => s end).
+  assert (B1 : body' (fst (h, s)) = if exceeded_now entry maxiter hh then (hh, true) else (hh, false)) by reflexivity.
+  assert (B2 : body2' (h, s) = if exceeded_now entry maxiter hh then ((hh, sp), true) else ((hh, sp), false)) by reflexivity.
+  rewrite B1, B2.
+  assert (Hsync : synced (hh, sp)).
+  { unfold synced, hh, sp, op_log, op_update, op_callback, op_step. cbn [fst snd].
+    destruct h as [|c0 r0]; [congruence|]. cbn [on_final].
+    destruct (step (cb c0 :: r0)) as [c1|]; cbn [on_final]; eexists; eexists; split; reflexivity. }
+  destruct (exceeded_now entry maxiter hh); cbn [fst snd]; (split; [reflexivity|]); (split; [reflexivity|exact Hsync]).
+Qed.
+
+Lemma loop2_spec : forall fuel x, synced x ->
+  fst (loop2' fuel x) = final_hist entry (loop' fuel (fst x)) /\ synced (loop2' fuel x).
+Proof.
+  induction fuel as [|f IH]; intros x Hs.
+  - cbn [loop loop2]. cbv beta delta [hist st] in *. destruct (converged' (fst x)) as [[|]| | |] eqn:C; cbn [final_hist]; (split; [reflexivity|exact Hs]).
+  - assert (Hne : fst x <> []) by (destruct Hs as [c [r [E _]]]; rewrite E; discriminate).
+    destruct (body2_facts x Hne) as [E1 [E2 Hb]].
+    cbn [loop loop2]. cbv beta delta [hist st] in *. destruct (converged' (fst x)) as [[|]| | |] eqn:C; cbn [final_hist];
+      try (split; [reflexivity|exact Hs]).
+    rewrite E2.
+    match goal with |- fst (if ?b1 then _ else _) = final_hist _ (if ?b2 then _ else _) /\ _ =>
+      change b2 with b1; destruct b1 end; cbn [final_hist].
+    + split; [exact E1|exact Hb].
+    + destruct (IH _ Hb) as [A B]. split; [|exact B]. rewrite A. f_equal. f_equal. exact E1.
+Qed.
+
 (* what `converged` = True means (translated rule) *)
 Lemma converged_true_inv h : converged' h = Ok true ->
   single_atom = true \/
@@ -597,3 +659,7 @@ Proof.
     exists c, r, cp. repeat split; [apply Nat.eqb_eq; exact En|exact H].
 Qed.
 End LoopLemmas.
+
+(* ------------------------------------------------------------------ the loop on concrete points *)
+Lemma within_fin k c v t : within k c v -> c = Some (Fin t) -> forall e, v = Some e -> exists x, e = Fin x /\ x <= k * t.
+Proof. intros W Hc e He. destruct (W t Hc) as [x [Hx Hle]]. rewrite He in Hx. injection Hx as ->. exists x. split; [reflexivity|exact Hle]. Qed.
